@@ -442,13 +442,15 @@ def forwardRequest (r : ReqHead) (body : Bytes) : Bytes :=
 
 def noBodyStatus (st : Nat) : Bool := (100 ≤ st && st ≤ 199) || st = 204 || st = 304
 
-/-- what `Http1Server.send` writes for ResponseHeaders, ResponseData(body), ResponseEndOfMessage -/
+/-- what `Http1Server.send` writes for ResponseHeaders, ResponseData(body), ResponseEndOfMessage: data is not written
+    for a response to HEAD or a 204/304 (nor when empty); the last-chunk not for HEAD / 1xx / 204 / 304 -/
 def relayResponse (reqMethod : Bytes) (r : RespHead) (body : Bytes) : Bytes :=
+  let dataWritten : Bool := !body.isEmpty && !(asciiUpper reqMethod = sHEAD || r.status = 204 || r.status = 304)
   assembleResponseHead r ++
   (if sendsChunked r.fields then
-     (if body.isEmpty then [] else chunk body) ++
+     (if dataWritten then chunk body else []) ++
      (if asciiUpper reqMethod ≠ sHEAD ∧ !noBodyStatus r.status then lastChunk else [])
-   else body)
+   else (if dataWritten then body else []))
 
 /-! ### SPEC: strict RFC 9112 reference reader (twin of harness/common/refparsers.py) -/
 namespace Ref
